@@ -75,6 +75,7 @@ def segment_behaviour(trace_path, line):
             else:
                 evs.append(e)
     cap = evs[0].get("cap", 2) if evs else 2
+    nk = evs[0].get("nk", 3) if evs else 3
     beh = []
     for e in evs[1:-1]:
         if e.get("op") in ("Set", "Remove", "Commit", "Reload"):
@@ -83,36 +84,66 @@ def segment_behaviour(trace_path, line):
     if last.get("op") == "Read" and "kind" in last:
         rd = {k: last[k] for k in ("via", "h", "kind", "k", "lo", "hi", "asc") if k in last}
         beh.append({"op": "Read", "read": rd})
-    return cap, beh, last
+    return cap, nk, beh, last
 
 
-def judge_trace(c, trace_path, what, n_traces, nk, known, tag, timeout=1500):
-    """TraceHeightCache on a recorded trace.  C10_CacheTransparent violated = a real disagreement
-    between node A and node B that no open known deviation explains: VIOLATION.  The other
-    invariants tie the model to the code and the oracle to the reference: machinery errors."""
-    res = vf.run_tlc(SPEC, "TraceHeightCache", "TraceHeightCache.cfg", c.scratch, workers=1,
-                     env=dict(known_env(known), TRACE_FILE=trace_path), timeout=timeout, tag="Trace-" + tag)
-    c.add("trace_events_validated", max(res.distinct - 1, 0))
-    hits = report_hits(c, known, res.stdout_path)
-    if res.ok:
-        c.add("traces_validated_against_impl", n_traces)
-        fit = fit_of(res.stdout_path)
-        c.parts.append("%s: %d traces / %d events accepted by TraceHeightCache; real cache = model with deviations %s; known deviations hit: %s" % (
-            what, n_traces, res.distinct - 1, fit, sorted(hits)))
-        return res, fit
-    if res.violated == "C10_CacheTransparent":
-        line = None
-        m = re.search(r"<<(\d+)", res.final_state.get("err", ""))
-        if m:
-            line = int(m.group(1))
-        cap, beh, last = segment_behaviour(trace_path, line) if line else (2, [], {})
-        summary = "%s: node A (cache on) and node B (cache off) disagree and no open known deviation explains it: %s (trace line %s)" % (
-            what, json.dumps(last)[:300], line)
-        c.violation(summary, {"kind": "behaviour", "harness_cmd": ["vh-hcache", "replay", "-in", "{in}", "-nk", str(nk), "-cap", str(cap)],
-                              "behaviour": beh, "read": last, "violated": res.violated})
-        return res, None
-    raise vf.MachineryError("%s: TraceHeightCache reports %s (final state: %s) -- the model does not describe this tree / the oracle; not a C10 verdict" % (
-        what, res.violated, {k: v[:200] for k, v in res.final_state.items() if k.startswith("err") or k == "l"}))
+class Judge:
+    """Collects the traces recorded from the real stores (replayed TLC behaviours with their
+    disagreements, random-driver traces) and has TLC judge them in one TraceHeightCache run."""
+
+    def __init__(self, c, known):
+        self.c, self.known = c, known
+        self.path = os.path.join(c.scratch, "judge.ndjson")
+        self.parts = []          # (first line, last line, what, n_traces)
+        self.lines = 0
+        open(self.path, "w").close()
+
+    def add(self, trace_path, what, n_traces):
+        n = 0
+        with open(trace_path) as f, open(self.path, "a") as o:
+            for l in f:
+                o.write(l)
+                n += 1
+        if n:
+            self.parts.append((self.lines + 1, self.lines + n, what, n_traces))
+            self.lines += n
+
+    def part_of(self, line):
+        for a, b, what, _ in self.parts:
+            if a <= line <= b:
+                return what
+        return "?"
+
+    def run(self, tag, timeout=3000):
+        """C10_CacheTransparent violated = a real disagreement between node A and node B that no
+        open known deviation explains: VIOLATION.  The other invariants tie the model to the code
+        and the oracle to the reference semantics: machinery errors, never a verdict."""
+        c = self.c
+        if not self.lines:
+            return None
+        res = vf.run_tlc(SPEC, "TraceHeightCache", "TraceHeightCache.cfg", c.scratch, workers=1,
+                         env=dict(known_env(self.known), TRACE_FILE=self.path), timeout=timeout, tag="Trace-" + tag)
+        c.add("trace_events_validated", max(res.distinct - 1, 0))
+        hits = report_hits(c, self.known, res.stdout_path)
+        if res.ok:
+            fit = fit_of(res.stdout_path)
+            for _, _, what, n in self.parts:
+                c.add("traces_validated_against_impl", n)
+            c.parts.append("TraceHeightCache accepted %d events (%s); the real cache behaves as the model with deviations %s; "
+                           "open known deviations that explained a disagreement: %s" % (
+                               res.distinct - 1, "; ".join("%s: %d traces" % (w, n) for _, _, w, n in self.parts), fit, sorted(hits)))
+            return fit
+        if res.violated == "C10_CacheTransparent":
+            m = re.search(r"<<(\d+)", res.final_state.get("err", ""))
+            line = int(m.group(1)) if m else None
+            cap, nk, beh, last = segment_behaviour(self.path, line) if line else (2, 3, [], {})
+            summary = "%s: node A (cache on) and node B (cache off) disagree and no open known deviation explains it: %s" % (
+                self.part_of(line) if line else "?", json.dumps(last)[:300])
+            c.violation(summary, {"kind": "behaviour", "harness_cmd": ["vh-hcache", "replay", "-in", "{in}", "-nk", str(nk), "-cap", str(cap)],
+                                  "behaviour": beh, "read": last, "violated": res.violated})
+            return None
+        raise vf.MachineryError("TraceHeightCache reports %s (%s) -- the model does not describe this tree / the oracle; not a C10 verdict" % (
+            res.violated, {k: v[:200] for k, v in res.final_state.items() if k.startswith("err") or k == "l"}))
 
 
 # ------------------------------------------------------------------------------ C10
@@ -129,17 +160,18 @@ def c10(c):
     c.assume("not modelled: RollbackVersion on a cache-enabled store (no caller in the application), concurrent readers, pruning (disabled in iavl.Store.Commit)")
 
     # 1. design model.  (a) with every named deviation repaired the cache is transparent (exhaustive);
-    #    (b) as the pinned code has it the model itself violates C10; (c) per named deviation TLC
-    #    enumerates candidate counterexamples.  None of this is a verdict: (c) is replayed below.
-    cfg = "MC_fixed_t.cfg" if thorough else "MC_fixed.cfg"
-    res = vf.run_tlc(SPEC, "MCHeightCache", cfg, c.scratch, workers=8, timeout=3000)
-    if not res.ok:
-        raise vf.MachineryError("the repaired design model violates %s (%s)" % (res.violated, cfg))
-    c.add_tlc(res, "TLC exhaustive %s (all deviations repaired: C10_CacheTransparent holds)" % cfg)
-    res = vf.run_tlc(SPEC, "MCHeightCache", "MC_ascode.cfg", c.scratch, workers=4, timeout=600)
-    if res.violated != "C10_CacheTransparent_Witness":
-        raise vf.MachineryError("MC_ascode.cfg: expected the model with all named deviations to violate C10, got %r" % res)
-    c.parts.append("TLC MC_ascode.cfg: the cache model as the pinned code has it violates C10_CacheTransparent (depth %d) -- candidate only" % res.depth)
+    #    (b) thorough: as the pinned code has it the model itself violates C10; (c) per named deviation
+    #    TLC enumerates candidate counterexamples.  None of this is a verdict: (c) is replayed below.
+    for cfg in (["MC_fixed_t.cfg", "MC_fixed_t2.cfg"] if thorough else ["MC_fixed.cfg"]):
+        res = vf.run_tlc(SPEC, "MCHeightCache", cfg, c.scratch, workers=8, timeout=3000)
+        if not res.ok:
+            raise vf.MachineryError("the repaired design model violates %s (%s)" % (res.violated, cfg))
+        c.add_tlc(res, "TLC exhaustive %s (all deviations repaired: C10_CacheTransparent holds)" % cfg)
+    if thorough:
+        res = vf.run_tlc(SPEC, "MCHeightCache", "MC_ascode.cfg", c.scratch, workers=4, timeout=600)
+        if res.violated != "C10_CacheTransparent_Witness":
+            raise vf.MachineryError("MC_ascode.cfg: expected the model with all named deviations to violate C10, got %r" % res)
+        c.parts.append("TLC MC_ascode.cfg: the cache model as the pinned code has it violates C10_CacheTransparent (depth %d) -- candidate only" % res.depth)
     res = vf.run_tlc(SPEC, "MCHeightCache", "MC_witness.cfg", c.scratch, workers=4, timeout=600)
     if not res.ok:
         raise vf.MachineryError("MC_witness.cfg failed: %r" % res)
@@ -167,28 +199,36 @@ def c10(c):
                     break
     c.add_tlc(res, "TLC MC_witness.cfg: %d candidate counterexamples for %d named deviations" % (sum(map(len, cands.values())), len(cands)))
 
-    # 2. every TLC counterexample is replayed on the two real stores (all reads of the final
-    #    state are logged); TLC then fits the deviation set of the real cache and classifies.
+    judge = Judge(c, known)
+
+    # 2. every selected TLC counterexample is replayed on the two real stores; all reads of the
+    #    final state are logged, so TLC can also fit the deviation set of the real cache.
     wtrace = os.path.join(c.scratch, "witness-trace.ndjson")
     rep = vf.run_harness("vh-hcache", ["replay", "-in", wit, "-nk", 2, "-cap", 2, "-explain", wtrace, "-logall"], env={"VERIF_SEED": c.seed})
     for m in rep.get("mismatches", []):
-        if m.get("what") not in ("A!=B",):
+        if m.get("what") == "A!=B aux":
+            c.violation("replayed TLC counterexamples: second substore differs between the nodes: %s" % m.get("got"),
+                        {"kind": "behaviour", "harness_cmd": ["vh-hcache", "replay", "-in", "{in}", "-nk", "2", "-cap", "2"],
+                         "behaviour": m.get("history"), "mismatch": m})
+        elif m.get("what") != "A!=B":
             raise vf.MachineryError("witness replay: %s" % json.dumps(m)[:600])
+    if c.violations:
+        return c.finish(rule="stopped after the first failing stage")
     reproduced = sorted({w["dev"] for w in rep["extra"].get("witness") or [] if w["reproduced"]})
     c.add("impl_steps", rep["steps"])
-    c.parts.append("TLC counterexamples replayed on the real stores: %d of %d reproduce (deviations present in this tree: %s)" % (
+    c.add("traces_validated_against_impl", 0)
+    c.parts.append("TLC counterexamples replayed on the real stores: %d of %d reproduce (named deviations present in this tree: %s)" % (
         rep["extra"]["witness_reproduced"], rep["extra"]["witness_total"], reproduced))
     for w in (rep["extra"].get("witness") or [])[:2]:
         c.sample(w)
-    _, fit = judge_trace(c, wtrace, "replayed TLC counterexamples", nwit, 2, known, "witness")
-    if c.violations:
-        return c.finish(rule="stopped after the first failing stage")
+    judge.add(wtrace, "replayed TLC counterexamples", nwit)
 
     # 3. spec -> code, exhaustive: every transition of the bounded state graph; after the last step
-    #    every read of the final state on both nodes.  Distinct disagreements go to TLC.
-    covers = [("MC_cover_q.cfg", 3, 2), ("MC_cover_q2.cfg", 2, 2)]
+    #    every read of the final state on both nodes.  Distinct disagreements go to the judge.
+    covers = [("MC_cover_q.cfg", 3, 2), ("MC_cover_q2.cfg", 2, 2), ("MC_cover_q3.cfg", 2, 2)]
     if thorough:
-        covers = [("MC_cover_t1.cfg", 3, 2), ("MC_cover_t2.cfg", 3, 3), ("MC_cover_t3.cfg", 2, 2), ("MC_cover_q2.cfg", 2, 2)]
+        covers = [("MC_cover_t1.cfg", 3, 2), ("MC_cover_t2.cfg", 3, 3), ("MC_cover_t3.cfg", 2, 2), ("MC_cover_t4.cfg", 2, 3),
+                  ("MC_cover_q2.cfg", 2, 2), ("MC_cover_q3.cfg", 2, 2)]
     for cfg, nk, cap in covers:
         res = vf.run_tlc(SPEC, "MCHeightCache", cfg, c.scratch, workers=8, timeout=3000)
         if not res.ok:
@@ -198,12 +238,13 @@ def c10(c):
         if vf.extract_behaviours(res.stdout_path, beh) == 0:
             raise vf.MachineryError("no behaviours emitted by " + cfg)
         os.remove(res.stdout_path)
-        if not replay_and_judge(c, beh, nk, cap, known, "transition cover " + cfg, cfg.replace(".cfg", "")):
-            return c.finish(rule="stopped after the first failing stage")
+        replay_into(c, judge, beh, nk, cap, "transition cover " + cfg, cfg.replace(".cfg", ""))
         os.remove(beh)
+        if c.violations:
+            return c.finish(rule="stopped after the first failing stage")
 
     # 4. spec -> code, random deep histories (4 keys, capacity 3, up to 12 blocks, restarts)
-    num = 400 if thorough else 40
+    num = 1500 if thorough else 30
     res = vf.run_tlc(SPEC, "MCHeightCache", "MC_sim.cfg", c.scratch, workers=8, simulate=dict(num=num, depth=45),
                      seed=c.seed, timeout=1800, tag="sim")
     if not res.ok:
@@ -211,33 +252,38 @@ def c10(c):
     beh = os.path.join(c.scratch, "sim.txt")
     if vf.extract_behaviours(res.stdout_path, beh) == 0:
         raise vf.MachineryError("no simulated behaviours")
-    if not replay_and_judge(c, beh, 4, 3, known, "TLC -simulate depth 40 (4 keys, capacity 3, <= 12 blocks)", "sim"):
-        return c.finish(rule="stopped after the first failing stage")
-
-    # 5. code -> spec: seeded random driver (10 keys, capacities 1-4 and the real 12, restarts, reads in
-    #    the middle of blocks), every read logged with both real results; TLC is the judge
-    ntr, blocks = (240, 18) if thorough else (30, 16)
-    tr = os.path.join(c.scratch, "trace-hcache.ndjson")
-    targs = ["trace", "-out", tr, "-n", ntr, "-blocks", blocks, "-nk", 10, "-cap", -1, "-reads", 30]
-    rep = vf.run_harness("vh-hcache", targs, env={"VERIF_SEED": c.seed})
-    c.add("impl_steps", rep["steps"] + rep["extra"]["reads"])
-    res, fit2 = judge_trace(c, tr, "random driver traces (10 keys, capacities 1-4 and 12)", ntr, 10, known, "random", timeout=3000)
-    with open(tr) as f:
-        c.sample([json.loads(next(f)) for _ in range(6)])
+    replay_into(c, judge, beh, 4, 3, "TLC -simulate depth 40 (4 keys, capacity 3, <= 12 blocks)", "sim")
     if c.violations:
         return c.finish(rule="stopped after the first failing stage")
 
-    # 6. binding demonstration: one logged node-A result altered -> must be rejected
+    # 5. code -> spec: seeded random driver (10 keys, capacities 1-4 and the real 12, restarts, reads in
+    #    the middle of blocks), every read logged with both real results
+    ntr, blocks, reads = (300, 20, 30) if thorough else (40, 16, 25)
+    tr = os.path.join(c.scratch, "trace-hcache.ndjson")
+    targs = ["trace", "-out", tr, "-n", ntr, "-blocks", blocks, "-nk", 10, "-cap", -1, "-reads", reads]
+    rep = vf.run_harness("vh-hcache", targs, env={"VERIF_SEED": c.seed})
+    c.add("impl_steps", rep["steps"] + rep["extra"]["reads"])
+    c.add("reads_compared", rep["extra"]["reads"])
+    judge.add(tr, "random driver traces (10 keys, capacities 1-4 and 12)", ntr)
+    with open(tr) as f:
+        c.sample([json.loads(next(f)) for _ in range(6)])
+
+    # 6. TLC judges everything recorded from the real stores
+    judge.run("judge")
+    if c.violations:
+        return c.finish(rule="stopped after the first failing stage")
+
+    # 7. binding demonstration: one logged node-A result altered -> must be rejected
     def corrupt(lines):
         for i, l in enumerate(lines):
             e = json.loads(l)
-            if e.get("op") == "Read" and e.get("kind") == "Get" and i > 200 and e.get("a") == e.get("b") and e["a"][0] > 0:
+            if e.get("op") == "Read" and e.get("kind") == "Get" and i > 100 and e.get("a") == e.get("b") and e["a"][0] > 0:
                 e["a"] = [e["a"][0] + 1]
                 return lines[:i] + [json.dumps(e)] + lines[i + 1:]
         return None
     os.environ.update(known_env(known))
     try:
-        vf.binding_selftest(c, SPEC, "TraceHeightCache", "TraceHeightCache.cfg", tr, corrupt, "one node-A Get result altered")
+        vf.binding_selftest(c, SPEC, "TraceHeightCache", "TraceHeightCache.cfg", wtrace, corrupt, "one node-A Get result altered")
     finally:
         for k in known_env(known):
             os.environ.pop(k, None)
@@ -251,24 +297,24 @@ def c10(c):
         exhaustive=True)
 
 
-def replay_and_judge(c, beh, nk, cap, known, what, tag):
+def replay_into(c, judge, beh, nk, cap, what, tag):
+    """Replay behaviours on the two real stores; the distinct A/B disagreements (each with the
+    history that produced it) are handed to the judge."""
     ex = os.path.join(c.scratch, "explain-%s.ndjson" % tag)
     cmd = ["vh-hcache", "replay", "-in", "{in}", "-nk", str(nk), "-cap", str(cap)]
     rep = vf.run_harness("vh-hcache", ["replay", "-in", beh, "-nk", nk, "-cap", cap, "-explain", ex], env={"VERIF_SEED": c.seed}, timeout=3000)
     c.add_replay(rep, "%s replayed on two real rootmulti stores (%d reads, %d served from the cache, %d A/B disagreements, %d distinct)" % (
         what, rep["extra"]["reads"], rep["extra"]["served_iter_reads"], rep["extra"]["disagreements"], rep["extra"]["distinct_disagreements"]))
     c.add("reads_compared", rep["extra"]["reads"])
+    if rep.get("nontrivial", 0) == 0:
+        raise vf.MachineryError("%s: no replayed behaviour had a height served from the cache (dead driver)" % what)
     for m in rep.get("mismatches", []):
         if m.get("what") == "A!=B aux":
             c.violation("%s: second substore differs between the nodes: %s" % (what, m.get("got")),
                         {"kind": "behaviour", "harness_cmd": cmd, "behaviour": m.get("history"), "mismatch": m})
         else:
             raise vf.MachineryError("%s: %s" % (what, json.dumps(m)[:800]))
-    if c.violations:
-        return False
-    if rep["extra"]["distinct_disagreements"] > 0:
-        judge_trace(c, ex, what + ": distinct disagreements", rep["extra"]["distinct_disagreements"], nk, known, tag)
-    return not c.violations
+    judge.add(ex, what + ": distinct disagreements", rep["extra"]["distinct_disagreements"])
 
 
 ENGINE_KIND = ("TLA+ two-node specification HeightCache (cache transcribed from the code with named deviations) checked by TLC; "
